@@ -769,13 +769,22 @@ def decorate_with_checker(func: CallableT) -> CallableT:
                     resolved_kwargs["OLD"] = await _capture_old_async(
                         snapshots=snapshots, resolved_kwargs=resolved_kwargs
                     )
+            finally:
+                in_progress.discard(id_func)
 
-                # Ideally, we would catch any exception here and strip the checkers from the traceback.
-                # Unfortunately, this can not be done in Python 3, see
-                # https://stackoverflow.com/questions/44813333/how-can-i-elide-a-function-wrapper-from-the-traceback-in-python-3
-                result = await func(*args, **kwargs)
+            # The contract checking is suspended only while the contracts are checked, but not while the function
+            # itself is executed. Otherwise, the calls to the same function made from its body (*e.g.*, in a recursion)
+            # would not be checked at all.
 
-                if postconditions:
+            # Ideally, we would catch any exception here and strip the checkers from the traceback.
+            # Unfortunately, this can not be done in Python 3, see
+            # https://stackoverflow.com/questions/44813333/how-can-i-elide-a-function-wrapper-from-the-traceback-in-python-3
+            result = await func(*args, **kwargs)
+
+            if postconditions:
+                in_progress.add(id_func)
+
+                try:
                     resolved_kwargs["result"] = result
 
                     violation_error = await _assert_postconditions_async(
@@ -783,10 +792,10 @@ def decorate_with_checker(func: CallableT) -> CallableT:
                     )
                     if violation_error:
                         raise violation_error
+                finally:
+                    in_progress.discard(id_func)
 
-                return result
-            finally:
-                in_progress.discard(id_func)
+            return result
 
     else:
 
@@ -847,13 +856,22 @@ def decorate_with_checker(func: CallableT) -> CallableT:
                     resolved_kwargs["OLD"] = _capture_old(
                         snapshots=snapshots, resolved_kwargs=resolved_kwargs, func=func
                     )
+            finally:
+                in_progress.discard(id_func)
 
-                # Ideally, we would catch any exception here and strip the checkers from the traceback.
-                # Unfortunately, this can not be done in Python 3, see
-                # https://stackoverflow.com/questions/44813333/how-can-i-elide-a-function-wrapper-from-the-traceback-in-python-3
-                result = func(*args, **kwargs)
+            # The contract checking is suspended only while the contracts are checked, but not while the function
+            # itself is executed. Otherwise, the calls to the same function made from its body (*e.g.*, in a recursion)
+            # would not be checked at all.
 
-                if postconditions:
+            # Ideally, we would catch any exception here and strip the checkers from the traceback.
+            # Unfortunately, this can not be done in Python 3, see
+            # https://stackoverflow.com/questions/44813333/how-can-i-elide-a-function-wrapper-from-the-traceback-in-python-3
+            result = func(*args, **kwargs)
+
+            if postconditions:
+                in_progress.add(id_func)
+
+                try:
                     resolved_kwargs["result"] = result
 
                     violation_error = _assert_postconditions(
@@ -863,10 +881,10 @@ def decorate_with_checker(func: CallableT) -> CallableT:
                     )
                     if violation_error:
                         raise violation_error
+                finally:
+                    in_progress.discard(id_func)
 
-                return result
-            finally:
-                in_progress.discard(id_func)
+            return result
 
     # Copy __doc__ and other properties so that doctests can run
     functools.update_wrapper(wrapper=wrapper, wrapped=func)
